@@ -196,6 +196,12 @@ class StmtMixin:
             if v.kind.name in ('emptylist', 'emptydict', 'emptyset'):
                 inner = fk.args[0] if fk.name == 'opt' else fk
                 v = self.materialise(v, inner)
+            inv = self.reg.field_invariant(obj.kind.name, t.attr)
+            if inv is not None and not self.term_mode:
+                # a type invariant of the attribute (assumed at every read) is checked at every write
+                vv = v if v.kind == fk else SV(fk, self.coerce(v, fk))
+                g = self.eval_clause(inv[1], env={'v': vv}, contract=inv[2], polarity=1)
+                self.prove(f'{self.frames[0].qualname}::field-invariant({inv[0]}.{t.attr})', g)
             self.write_field(obj, t.attr, v)
         elif isinstance(t, ast.Subscript):
             base = self.force(self.eval(t.value))
@@ -265,8 +271,77 @@ class StmtMixin:
         raise Unsupported(f'del item on {k}')
 
     # ------------------------------------------------------------ control flow
+    def cond(self, node, force=False):
+        """z3 Bool of a test expression.  With the merge option, `and` / `or` / `not` chains are
+        evaluated without forking as long as each later operand can be evaluated speculatively under
+        the guard that it is reached (no fork, no exception, no heap effect); otherwise the prefix
+        is decided by a fork exactly as Python's short-circuit evaluation would."""
+        if self.term_mode or not (force or self.options.get('merge_ifs', False)):
+            return self.truthy(self.eval(node))
+        if isinstance(node, ast.UnaryOp) and isinstance(node.op, ast.Not):
+            return z3.Not(self.cond(node.operand, force))
+        if not isinstance(node, ast.BoolOp):
+            return self.truthy(self.eval(node))
+        is_and = isinstance(node.op, ast.And)
+        acc = None
+        for sub in node.values:
+            if acc is None:
+                acc = self.cond(sub, force)
+                continue
+            g = z3.simplify(acc if is_and else z3.Not(acc))
+            if z3.is_false(g):
+                break                      # certainly short-circuited here
+            t = self.cond(sub, force) if z3.is_true(g) else self.spec_cond(sub, g, force)
+            if t is None:
+                d = self.p.choose(acc)
+                if is_and and not d:
+                    return z3.BoolVal(False)
+                if (not is_and) and d:
+                    return z3.BoolVal(True)
+                acc = self.cond(sub, force)
+            else:
+                acc = z3.And(acc, t) if is_and else z3.Or(acc, t)
+        return acc
+
+    def spec_cond(self, sub, guard, force=False):
+        """Evaluate an operand under `guard` without forking; None if that is not possible."""
+        from .core import SpecAbort
+        p = self.p
+        fr = self.frame
+        st = (dict(fr.locals), dict(p.heap), p.next, p.nfresh, len(self.obligations),
+              dict(fr.call_ordinals), len(self.frames), self.cur_line)
+        p.guards.append(guard)
+        p.speculating += 1
+        ok = True
+        t = None
+        try:
+            t = self.cond(sub, force)
+        except (SpecAbort, PyRaise, Infeasible, Unsupported, ReturnEx, BreakEx, ContinueEx):
+            ok = False
+        finally:
+            p.guards.pop()
+            p.speculating -= 1
+        if ok:
+            for k_, a in p.heap.items():
+                b = st[1].get(k_)
+                if b is None:
+                    if not (z3.is_const(a) and a.decl().kind() == z3.Z3_OP_UNINTERPRETED):
+                        ok = False
+                        break
+                elif not a.eq(b):
+                    ok = False
+                    break
+        if not ok:
+            fr.locals, p.heap, p.next, p.nfresh = dict(st[0]), dict(st[1]), st[2], st[3]
+            del self.obligations[st[4]:]
+            fr.call_ordinals = dict(st[5])
+            del self.frames[st[6]:]
+            self.cur_line = st[7]
+            return None
+        return t
+
     def s_If(self, s):
-        c = self.truthy(self.eval(s.test))
+        c = self.cond(s.test)
         p = self.p
         cz = z3.simplify(c) if not isinstance(c, bool) else z3.BoolVal(c)
         if not (z3.is_true(cz) or z3.is_false(cz)) and self.options.get('merge_ifs', False):
@@ -324,7 +399,7 @@ class StmtMixin:
         fr = self.frame
         if len(self.frames) > 12 or p.speculating >= 2:
             return False
-        if p.check(c) == z3.unsat or p.check(z3.Not(c)) == z3.unsat:
+        if not p.feasible(c) or not p.feasible(z3.Not(c)):
             return False       # one side infeasible: ordinary choose handles it without a fork
 
         def snap():
@@ -602,6 +677,14 @@ class StmtMixin:
         # 3. assume invariant
         for inv in spec.invariant:
             p.assume(self.eval_clause(inv, extra=ghost))
+        if spec.invariant and not p.speculating:
+            # vacuity guard (as for callee contracts): an invariant that contradicts the loop-head
+            # state would make the rest provable; no surviving path at all is an error
+            stat = self.site_stats.setdefault(f'loop {k} invariant', [0, 0])
+            if p.qf.check() == z3.unsat:
+                stat[1] += 1
+                raise Infeasible()
+            stat[0] += 1
         # 4. fork: iterate once more, or leave
         if is_for:
             more = self.iter_has_next(iterctx, ghost['_i'].t)
@@ -677,6 +760,12 @@ class StmtMixin:
         j = z3.Int('j!ord')
         y = z3.Const('y!ord', s)
         p = self.p
+        if not _pattern_safe(mem):
+            # an if-then-else (merged branches) cannot occur in a quantifier pattern: name the array
+            m0 = p.fresh('memv', mem.sort())
+            p.assume(m0 == mem)
+            mem = m0
+            n = cnt(mem)
         p.assume(n >= 0)
         p.assume(z3.ForAll([j], z3.Implies(z3.And(0 <= j, j < n), z3.And(
             z3.Select(mem, ordf(mem, j)), idx(mem, ordf(mem, j)) == j)),
@@ -709,6 +798,22 @@ class StmtMixin:
                 return val
             return self.make_tuple([key, val])
         raise Unsupported('iter_item')
+
+
+def _pattern_safe(t):
+    """Only uninterpreted constants, selects and stores: usable inside a quantifier pattern."""
+    todo = [t]
+    while todo:
+        x = todo.pop()
+        if not z3.is_app(x):
+            return False
+        k = x.decl().kind()
+        if k == z3.Z3_OP_ITE or z3.is_quantifier(x):
+            return False
+        if z3.is_bool(x) and x.num_args() > 0 and k not in (z3.Z3_OP_SELECT, z3.Z3_OP_UNINTERPRETED):
+            return False
+        todo.extend(x.children())
+    return True
 
 
 def _load(t):
